@@ -6,7 +6,9 @@ package rules
 // an unexported helper does not change what they see.
 
 import (
+	"go/constant"
 	"go/token"
+	"go/types"
 
 	"golang.org/x/tools/go/ssa"
 )
@@ -29,11 +31,109 @@ func (n *fnode) Root(v ssa.Value) ssa.Value {
 	for i := 0; i < 8; i++ {
 		r, ok := n.bind[v]
 		if !ok {
+			// a field of a struct the function was handed by value: what the caller put into that field
+			if w, ok2 := n.fieldOfStructArg(v); ok2 {
+				return w
+			}
 			return v
 		}
 		v = r
 	}
 	return v
+}
+
+// fieldOfStructArg: v loads field k of (the spilled copy of) a struct parameter, and the caller passed the value of a
+// local struct literal: the value the caller stored into field k of that literal — or the zero value of the field if
+// it stored none.
+func (n *fnode) fieldOfStructArg(v ssa.Value) (ssa.Value, bool) {
+	ld, ok := v.(*ssa.UnOp)
+	if !ok || ld.Op != token.MUL {
+		return nil, false
+	}
+	fa, ok := ld.X.(*ssa.FieldAddr)
+	if !ok {
+		return nil, false
+	}
+	spill, ok := fa.X.(*ssa.Alloc)
+	if !ok {
+		return nil, false
+	}
+	single := func(al *ssa.Alloc) ssa.Value {
+		var val ssa.Value
+		k := 0
+		for _, r := range *al.Referrers() {
+			if st, ok := r.(*ssa.Store); ok && st.Addr == ssa.Value(al) {
+				val = st.Val
+				k++
+			}
+		}
+		if k != 1 {
+			return nil
+		}
+		return val
+	}
+	pv := single(spill)
+	if pv == nil {
+		return nil, false
+	}
+	if _, isP := pv.(*ssa.Parameter); !isP {
+		return nil, false
+	}
+	av, bound := n.bind[pv]
+	if !bound {
+		return nil, false
+	}
+	ald, ok := av.(*ssa.UnOp)
+	if !ok || ald.Op != token.MUL {
+		return nil, false
+	}
+	lit, ok := ald.X.(*ssa.Alloc)
+	if !ok {
+		return nil, false
+	}
+	var w ssa.Value
+	k := 0
+	for _, r := range *lit.Referrers() {
+		switch x := r.(type) {
+		case *ssa.FieldAddr:
+			for _, r2 := range *x.Referrers() {
+				if st, ok := r2.(*ssa.Store); ok && st.Addr == ssa.Value(x) {
+					if x.Field == fa.Field {
+						w = st.Val
+						k++
+					}
+				} else if _, isLd := r2.(*ssa.UnOp); !isLd {
+					return nil, false // the field's address goes elsewhere
+				}
+			}
+		case *ssa.UnOp:
+		case *ssa.DebugRef:
+		default:
+			return nil, false // the literal's address goes elsewhere
+		}
+	}
+	switch k {
+	case 1:
+		return w, true
+	case 0:
+		return zeroConstOf(ld.Type()), true
+	}
+	return nil, false
+}
+
+func zeroConstOf(t types.Type) ssa.Value {
+	switch u := t.Underlying().(type) {
+	case *types.Basic:
+		switch {
+		case u.Info()&types.IsBoolean != 0:
+			return ssa.NewConst(constant.MakeBool(false), t)
+		case u.Info()&types.IsString != 0:
+			return ssa.NewConst(constant.MakeString(""), t)
+		case u.Info()&types.IsNumeric != 0:
+			return ssa.NewConst(constant.MakeInt64(0), t)
+		}
+	}
+	return ssa.NewConst(nil, t)
 }
 
 type flatGraph struct {
